@@ -11,6 +11,10 @@ func genWFault(tier string, seed uint64) {
 	r := &rng{s: seed}
 	docs := []string{"0", "u500", "s6b6579", "[2,u1,i-5,]", "{-1,s6b,[0,],s6b32,{1,s61,f3ff8000000000000,},}", "t9.[-1,s,x0102,]",
 		"{2,s61,u70000,s62,sc3a922,}", "[-1,[-1,[-1,],],]"}
+	// strings and keys longer than the copy buffers of the writers (4 KiB), and byte strings
+	for _, n := range []int{4095, 4096, 4097, 5000, 9000} {
+		docs = append(docs, "s"+strings.Repeat("61", n), "[2,s"+strings.Repeat("62", n)+",i1,]", "{1,s"+strings.Repeat("6b", n)+",s76,}")
+	}
 	nd := 60
 	if tier == "thorough" {
 		nd = 5000
@@ -39,10 +43,8 @@ func genWFault(tier string, seed uint64) {
 				for k := 0; k <= ref.calls; k++ {
 					for _, m := range []string{"e0", "s0", "b0", "e1", "s1", "b1"} {
 						emit("wfault %s %s %s %s %d %s", f, o[0], o[1], d, k, m)
-						if k%2 == 0 {
-							// the destination also offers WriteString
-							emit("wfault %sw %s %s %s %d %s", f, o[0], o[1], d, k, m)
-						}
+						// the destination also offers WriteString
+						emit("wfault %sw %s %s %s %d %s", f, o[0], o[1], d, k, m)
 					}
 				}
 			}
@@ -71,7 +73,7 @@ func genRFault(tier string, seed uint64) {
 			docs = append(docs, struct{ f, hex string }{"json", hexOrDash([]byte(sb.String()))})
 		}
 	}
-	for _, d := range docs {
+	for di, d := range docs {
 		n := len(d.hex) / 2
 		if d.hex == "-" {
 			n = 0
@@ -79,6 +81,11 @@ func genRFault(tier string, seed uint64) {
 		for k := 0; k <= n; k++ {
 			emit("rfault %s %s %d 0", d.f, d.hex, k)
 			emit("rfault %s %s %d 1", d.f, d.hex, k)
+			if di%3 == 0 {
+				// the reader's failure wraps io.EOF: still a failure, not the end of the input
+				emit("rfaultw %s %s %d 0", d.f, d.hex, k)
+				emit("rfaultw %s %s %d 1", d.f, d.hex, k)
+			}
 		}
 	}
 }
